@@ -273,63 +273,116 @@ def _columns(repo, res, bl):
 
 
 def _wire(repo, res, bl):
-    base_init = bl.methods["__init__"]
-    bp = base_init.params[1:]
+    """every loss class is *constructed* by interpreting its own __init__ (through super() into BaseLoss.__init__ and back into its
+    _setLossType); the broadcasting helper and the kernel classes are recorders.  What must come out: the kernel named after the class,
+    holding the observations, the weights derived from the caller's state_weight and (where the class has one) the spread derived from
+    the caller's spread argument - and nothing else of the caller's arguments mixed up on the way."""
+    from ..core.symarr import SymArr, np_summaries
+    from ..core import algebra as A
     mod = repo.module(M.M_ODELOSS)
-    n = 0
+    sol_fn = repo.func(M.M_UTILS + ".checks_and_conversions", "str_or_list")
+    model_states = ["S", "I", "R"]
+    n, names = 3, ["R", "I"]
+    n_cls = 0
     for cname, (kernel, spread) in KERNELS.items():
         c = mod.classes.get(cname)
         if c is None:
             res.violated("R-WIRE", "%s::%s" % (mod.rel, cname), None, "loss class %s vanished" % cname)
             continue
-        init = c.methods.get("__init__")
-        n += 1
-        sup = [x for x in walk_no_nested(init.node) if isinstance(x, ast.Call) and isinstance(x.func, ast.Attribute) and x.func.attr == "__init__"
-               and isinstance(x.func.value, ast.Call) and dotted(x.func.value.func) == "super"]
-        if len(sup) != 1:
-            res.violated("R-WIRE", init, "forwards", "%s.__init__ does not call super().__init__ once" % cname)
-            continue
-        b = C.bind_args(sup[0], bp)
-        problems = []
-        for p in ("theta", "ode", "x0", "t0", "t", "y", "state_name", "state_weight", "target_param", "target_state"):
-            if norm(b.get(p)) != p:
-                problems.append("%s=%s" % (p, norm(b.get(p))))
-        sp = b.get("spread_param")
-        if spread is None:
-            if not (sp is None or const_value(sp, 1) is None):
-                problems.append("spread_param=%s (this loss has no spread)" % norm(sp))
-        elif norm(sp) != spread:
-            problems.append("spread_param=%s (expected %s)" % (norm(sp), spread))
-        res.check(not problems, "R-WIRE", init, "forwards", "%s forwards every argument to the same-named BaseLoss parameter" % cname,
-                  "%s.__init__ -> BaseLoss.__init__: %s" % (cname, "; ".join(problems)), node=sup[0])
-        slt = c.methods.get("_setLossType")
-        ctor = [x for x in walk_no_nested(slt.node) if isinstance(x, ast.Call) and dotted(x.func) == kernel] if slt else []
-        kinit = repo.cls(M.M_LOSSTYPE, kernel).methods["__init__"]
-        ok = len(ctor) == 1
-        why = "%s._setLossType does not construct %s" % (cname, kernel)
-        if ok:
-            kb = C.bind_args(ctor[0], kinit.params[1:])
-            want = {"y": "self._y", "weights": "self._weight"}
-            if spread:
-                want[kinit.params[3]] = "self._spread_param"
-            got = {k: norm(v) for k, v in kb.items()}
-            ok = got == want
-            why = "%s(%s)" % (kernel, ", ".join("%s=%s" % kv for kv in sorted(got.items())))
-        rets = C.returns_of(slt) if slt else []
-        stored = any(isinstance(m, ast.Assign) and any(is_self_attr(t, "_lossObj") for t in m.targets) for m in walk_no_nested(slt.node)) if slt else False
-        res.check(ok and stored, "R-WIRE", slt or init, "kernel", "%s builds %s(y, weights%s)" % (cname, kernel, ", spread" if spread else ""),
-                  "%s._setLossType builds %s (expected y=self._y, weights=self._weight%s)" % (cname, why, ", spread=self._spread_param" if spread else ""),
-                  node=ctor[0] if ctor else None)
-    res.floor("loss classes wired", n, 5)
-    # BaseLoss stores weights / spread under the names the subclasses read
-    init = bl.methods["__init__"]
-    txt = [norm(m) for m in walk_no_nested(init.node) if isinstance(m, ast.Assign)]
-    ok_w = any(t.startswith("self._weight = self._setWeight_or_spread(n, p, state_weight") for t in txt)
-    ok_s = any(t.startswith("self._spread_param = self._setWeight_or_spread(n, p, spread_param") for t in txt)
-    res.check(ok_w and ok_s, "R-WIRE", init, "stores", "weights come from state_weight, spread from spread_param",
-              "BaseLoss.__init__ does not derive _weight from state_weight and _spread_param from spread_param")
-    ok = any(isinstance(m, ast.Assign) and any(is_self_attr(t, "_lossObj") for t in m.targets) and norm(m.value) == "self._setLossType()" for m in walk_no_nested(init.node))
-    res.check(ok, "R-WIRE", init, "kernel-built", "the kernel is built by the (overridden) _setLossType()", "BaseLoss.__init__ does not call self._setLossType()")
+        init = repo.resolve_method(c, "__init__")
+        n_cls += 1
+        kcls = repo.cls(M.M_LOSSTYPE, kernel)
+        kparams = repo.resolve_method(kcls, "__init__").params[1:]
+        spread_kw = [p_ for p_ in init.params if p_ not in ("self", "theta", "ode", "x0", "t0", "t", "y", "state_name", "state_weight", "target_param", "target_state")]
+        for use_kw in (False, True):
+            y = SymArr((n, 2), [A.sym("y_%s[%d]" % (names[j], i)) for i in range(n) for j in range(2)])
+            t = SymArr.symbols("t", (n,))
+            t0, x0, theta = A.sym("t0"), SymArr.symbols("x0", (3,)), SymArr.symbols("theta", (3,))
+            SW, SP = SymArr.symbols("sw", (n, 2)), SymArr.symbols("sp", (n, 2))
+            built = []
+            summ = np_summaries()
+
+            def bcast(me_, nn, pp, x, is_weights=True, **k):
+                return ("broadcast", x, bool(is_weights))
+
+            def mk_kernel(kname, params):
+                def ctor(*a, **k):
+                    b = dict(zip(params, a))
+                    b.update(k)
+                    built.append((kname, b))
+                    return Obj("Kernel", kind=kname, **{"arg_" + k_: v for k_, v in b.items()})
+                return ctor
+            for kn in ("Square", "Normal", "Gamma", "Poisson", "NegBinom"):
+                kp = repo.resolve_method(repo.cls(M.M_LOSSTYPE, kn), "__init__").params[1:]
+                summ[kn] = mk_kernel(kn, kp)
+                summ["loss_type." + kn] = summ[kn]
+            summ.update({
+                "ode_utils.check_array_type": lambda x, *a, **k: x if isinstance(x, SymArr) else SymArr.of(x),
+                "Model.integrate2": lambda m_, tt: SymArr.symbols("sol", (n, 3)),
+                "Model._iterStateList": lambda m_: list(model_states),
+                "Model.get_state_index": lambda m_, s_: ([model_states.index(s_)] if isinstance(s_, str) else [model_states.index(str(q)) for q in list(s_)]),
+                "Model.get_param_index": lambda m_, s_: (["a", "b", "c"].index(str(s_)) if isinstance(s_, str) else [["a", "b", "c"].index(str(q)) for q in s_]),
+                "Model._iterParamList": lambda m_: ["a", "b", "c"], "Model.param_list": lambda m_: ["a", "b", "c"],
+                "Loss._setWeight_or_spread": bcast, "Loss._setParam": lambda me_, v=None, *a, **k: built.append(("setParam", v)), "Loss._setX0": lambda me_, v=None, *a, **k: built.append(("setX0", v)),
+                "InputError": lambda *a: Tok("InputError"), "RuntimeError": lambda *a: Tok("RuntimeError"), "AssertionError": lambda *a: Tok("AssertionError"),
+            })
+
+            def str_or_list(x, _f=sol_fn):
+                kind_, v = Abs({}, {}, {}, None).run_function(_f.node, {_f.params[0]: x})
+                if kind_ == "raise":
+                    raise Raised(v)
+                return v
+            summ["ode_utils.str_or_list"] = str_or_list
+            ode = Obj("Model", parameters=Tok("params"), num_param=3, num_state=3)
+            me = Obj("Loss")
+            args = {"theta": theta, "ode": ode, "x0": x0, "t0": t0, "t": t, "y": y, "state_name": list(names), "state_weight": SW}
+            if spread_kw:
+                args[spread_kw[0]] = SP
+            tag = "constructed(%s)" % ("keywords" if use_kw else "positional")
+            ab = Abs({}, {}, summ, me)
+            ab.self_class = (repo, c)
+            ab.class_methods = set(repo.all_methods(c))
+            ab.module = init.module
+            ab.cur_cls = init.cls
+            try:
+                if use_kw:
+                    kind, out = ab.run_function(init.node, dict(args))
+                else:
+                    order = [p_ for p_ in init.params[1:] if p_ in args]
+                    kind, out = ab.run_function(init.node, {p_: args[p_] for p_ in order})
+            except Undecided as e:
+                res.undecided("R-WIRE", init, tag, "outside the modelled subset: %s" % e)
+                continue
+            problems = []
+            lo = me.attrs.get("_lossObj")
+            if kind != "return":
+                problems.append("a valid construction raises %s" % (out,))
+            elif not (isinstance(lo, Obj) and lo.cls == "Kernel"):
+                problems.append("no loss kernel is stored (self._lossObj = %r)" % (lo,))
+            else:
+                if lo.attrs["kind"] != kernel:
+                    problems.append("the kernel is %s, the class is named after %s" % (lo.attrs["kind"], kernel))
+                kb = {k_[4:]: v for k_, v in lo.attrs.items() if k_.startswith("arg_")}
+                ky = kb.get(kparams[0])
+                if not (isinstance(ky, SymArr) and ky.size == y.size and all(a_ == b_ for a_, b_ in zip(ky.flat, y.flat))):
+                    problems.append("the kernel's observations are %r, not the caller's y" % (ky,))
+                kw_ = kb.get(kparams[1])
+                if not (isinstance(kw_, tuple) and kw_[0] == "broadcast" and kw_[1] is SW and kw_[2] is True):
+                    problems.append("the kernel's weights are %r, expected the broadcast of the caller's state_weight" % (kw_,))
+                tt = me.attrs.get("_t")
+                if not (isinstance(tt, SymArr) and tt.size == n + 1 and tt.flat[0] == t0 and all(a_ == b_ for a_, b_ in zip(tt.flat[1:], t.flat))):
+                    problems.append("the solver grid is %r, expected the caller's t0 followed by t" % (tt,))
+                if not any(k_ == "setParam" and v is theta for k_, v in built) or not any(k_ == "setX0" and v is x0 for k_, v in built):
+                    problems.append("theta / x0 do not reach the parameter and initial-state setters unchanged (%s)" % [(k_, v) for k_, v in built if k_ in ("setParam", "setX0")])
+                if me.attrs.get("_ode") is not ode:
+                    problems.append("the model object stored is not the caller's")
+                if spread:
+                    ks = kb.get(kparams[2])
+                    if not (isinstance(ks, tuple) and ks[0] == "broadcast" and ks[1] is SP and ks[2] is False):
+                        problems.append("the kernel's %s is %r, expected the broadcast of the caller's %s" % (kparams[2], ks, spread_kw[0] if spread_kw else "spread"))
+            res.check(not problems, "R-WIRE", init, tag, "%s builds %s on the observations with weights from state_weight%s" % (cname, kernel, " and %s from the caller's spread" % spread if spread else ""),
+                      "%s: %s" % (cname, "; ".join(problems[:2])), node=init.node)
+    res.floor("loss classes constructed", n_cls, 5)
 
 
 def _ctor(repo, res, bl, rule="R-KV"):
@@ -559,7 +612,30 @@ def _kv(repo, res, bl):
                   "target state values are written at the indices of their own names", "_unrollState(['R','S'] <- [r, s]) writes %s" % x0, node=us.node)
     except Undecided as e:
         res.undecided("R-KV", us, "state-by-name", str(e))
-    # _setX0 copies
+    # _setX0 stores the values it is given in an array of its own: interpreted on array / list / tuple input; writing into the caller's
+    # array afterwards, or into the stored one, must not show in the other
+    from ..core.numarr import NumArr, num_summaries
     sx = bl.methods["_setX0"]
-    ok = any(isinstance(m, ast.Assign) and any(is_self_attr(t, "_x0") for t in m.targets) and norm(m.value) in ("np.copy(x0)", "x0.copy()", "np.array(x0)") for m in walk_no_nested(sx.node))
-    res.check(ok, "R-KV", sx, "copies", "_setX0 stores a copy", "_setX0 does not store a copy of the initial state")
+    problems = []
+    try:
+        for form, mk in (("array", lambda: NumArr([3.0, 1.5, 0.25])), ("integer array", lambda: NumArr([3, 1, 0])), ("list", lambda: [3.0, 1.5, 0.25]), ("tuple", lambda: (3.0, 1.5, 0.25))):
+            given = mk()
+            me = Obj("Loss")
+            ab = Abs({}, {"np.ndarray": lambda v: isinstance(v, NumArr), "int": lambda v: isinstance(v, int), "float": lambda v: isinstance(v, float),
+                          "complex": lambda v: isinstance(v, complex), "bool": lambda v: isinstance(v, bool)}, dict(num_summaries()), me)
+            ab.module = sx.module
+            kind, out = ab.run_function(sx.node, {sx.params[1]: given})
+            stored = me.attrs.get("_x0")
+            if kind != "return":
+                problems.append("%s input: raises %s" % (form, out))
+            elif not (isinstance(stored, NumArr) and stored.tolist() == list(given)):
+                problems.append("%s input %r is stored as %r" % (form, list(given), stored.tolist() if isinstance(stored, NumArr) else stored))
+            elif isinstance(given, NumArr):
+                given[0] = 99.0
+                if stored.tolist()[0] == 99.0:
+                    problems.append("%s input: the stored initial state shares memory with the caller's array (a later write by either side shows in the other)" % form)
+    except Undecided as e:
+        res.undecided("R-KV", sx, "copies", "outside the modelled subset: %s" % e)
+        problems = None
+    if problems is not None:
+        res.check(not problems, "R-KV", sx, "copies", "_setX0 stores the given values in an array of its own (array, integer array, list, tuple input)", "; ".join(problems[:2]), node=sx.node)
